@@ -515,6 +515,11 @@ func judge(cfg Config, r *result) verdict {
 			v.msg = fmt.Sprintf("quiescent with nothing left to run, yet delivered %d + reported %d < written %d: a returned Write needs a later Write or Close to be delivered", r.qDelivered, r.qReported, r.written)
 		case (r.quiescentSeen || cfg.Early) && r.producersDone == cfg.P && !r.closeReturned:
 			v.msg = fmt.Sprintf("Close did not return (deadlock=%v, step bound hit=%v)", s.Deadlock, s.StepLimit)
+		case cfg.Poller && s.MaxSleep > pollInterval(cfg):
+			// the scheduler owns the clock, so "promptly" is judged by what the code asks for: in polling mode
+			// a message waits at most one poll interval for the consumer to look; a consumer that decides to
+			// sleep longer than the interval it was configured with (a back-off) breaks that bound
+			v.msg = fmt.Sprintf("the poller asked to sleep %v although it was configured to poll every %v", s.MaxSleep, pollInterval(cfg))
 		case r.closeReturned && !cfg.NilAlert && len(r.delivered)+r.reported < r.written:
 			// every one of these Writes had returned before Close was called: each message reaches the
 			// wrapped writer or the alerter, at the latest through Close (also judged by C11)
@@ -523,6 +528,13 @@ func judge(cfg Config, r *result) verdict {
 		v.nontrivial = s.Preempt >= 1
 	}
 	return v
+}
+
+func pollInterval(cfg Config) time.Duration {
+	if cfg.LongPoll {
+		return 300 * time.Millisecond
+	}
+	return time.Millisecond
 }
 
 // ---------------------------------------------------------------- driving
@@ -742,6 +754,10 @@ func dfsConfigs() []struct {
 			c.Cfg.Early = true
 			out = append(out, c)
 		}
+	}
+	if prop == "C11" {
+		// ring sizes that are not powers of two, filled to one below the size before the consumer looks
+		out = append(out, cb{Config{P: 1, W: 6, Size: 7, Writer: "returns", Early: true}, 1}, cb{Config{P: 1, W: 5, Size: 6, Poller: true, Writer: "returns", Early: true}, 1}, cb{Config{P: 2, W: 5, Size: 11, Writer: "returns", Early: true}, 1})
 	}
 	if prop == "C11" || prop == "C12" {
 		// Close arriving while the consumer is inside the wrapped writer and the ring is full again behind it
